@@ -5,3 +5,5 @@
 mod stubs;
 #[cfg(kani)]
 mod c15;
+#[cfg(kani)]
+mod c20;
